@@ -1272,7 +1272,8 @@ func (c *control) dirR(colon, at bool, params []any) {
 					words = append(words, one[d-'0'])
 				}
 			}
-			if zero {
+			if zero && 0 < len(trip) {
+				// Remove the word pushed for this all zero triple.
 				words = words[:len(words)-1]
 			}
 			if i < 0 {
